@@ -18,6 +18,9 @@ OPS = {"Ne": "distinct", "Eq": "=", "Lt": "bvult", "Le": "bvule", "Gt": "bvugt",
 ATTR = re.compile(r"#\[(?:steel_derive::)?(function|native|native_mut|context)\((.*?)\)\]\s*(?:#\[[^\]]*\]\s*|///[^\n]*\n\s*|//[^\n]*\n\s*)*(?:pub(?:\([a-z]+\))?\s+)?fn\s+(\w+)", re.S)
 
 
+VALUE = re.compile(r'register_value\(\s*"([^"]+)",\s*SteelVal::(FuncV|BuiltIn|MutFunc)\(\s*([\w:]+)\s*\)')
+
+
 def registered(repo_src):
     """-> {mir function name suffix: (kind, script name, file)}"""
     out = {}
@@ -33,6 +36,12 @@ def registered(repo_src):
                     continue
                 key = ("steel_" + fn) if kind == "function" else fn
                 out.setdefault(key, (kind, nm.group(1), os.path.relpath(os.path.join(root, f), repo_src)))
+            # hand-registered procedures: register_value("name", SteelVal::FuncV(path::to::function))
+            for m in VALUE.finditer(txt):
+                line_start = txt.rfind("\n", 0, m.start()) + 1
+                if txt[line_start:m.start()].lstrip().startswith("//"):
+                    continue
+                out.setdefault(m.group(3).split("::")[-1], ("value", m.group(1), os.path.relpath(os.path.join(root, f), repo_src)))
     return out
 
 
@@ -127,6 +136,22 @@ def conversion_unwraps(f, P):
     return out
 
 
+def range_from_sites(f, P):
+    """`&args[n..]`: panics iff n > count.  -> list of (bb, n); second value: sub-slicings that are
+    not of this shape (not interpreted)"""
+    out, other = [], 0
+    for b in f.blocks.values():
+        t = b.term
+        if t.get("kind") == "call" and "Index<" in t["callee"] and len(t["args"]) > 1 and t["args"][0].strip() == "copy %s" % P:
+            o = mir.origin(f, t["args"][1])
+            m = re.match(r"^\(*move \(std::ops::RangeFrom::<usize> \{ start: const (\d+)_usize \}\)+$", o)
+            if m:
+                out.append((b.n, int(m.group(1))))
+            else:
+                other += 1
+    return out, other
+
+
 def paths_to(f, target, P, limit=3000):
     res = []
     stack = [(0, [], frozenset())]
@@ -159,12 +184,17 @@ def check_fn(key, f, timeout=60):
         return {"name": key, "res": "skip", "why": "no &[SteelVal] parameter"}
     const, other = bounds_asserts(f, P)
     unw = conversion_unwraps(f, P)
-    if not const and not unw:
+    rng, rng_other = range_from_sites(f, P)
+    other = other + [None] * rng_other
+    if not const and not unw and not rng:
         return {"name": key, "res": "none", "uninterpreted": len(other)}
     alts = []
     for bb, idx in const:
         for conds in paths_to(f, bb, P):
             alts.append("(and (bvule len (_ bv%d 64)) %s)" % (idx, " ".join(conds)))
+    for bb, start in rng:
+        for conds in paths_to(f, bb, P):
+            alts.append("(and (bvult len (_ bv%d 64)) %s)" % (start, " ".join(conds)))
     for bb, idx in unw:
         # the argument's kind is a free choice of the script: the conversion may fail on every path
         for conds in paths_to(f, bb, P):
@@ -182,5 +212,5 @@ def check_fn(key, f, timeout=60):
             if p2.stdout.startswith("sat"):
                 vals = [int(x, 16) for x in re.findall(r"#x([0-9a-f]{16})", p2.stdout)]
                 break
-    return {"name": key, "res": res, "len": vals[0] if vals else None, "asserts": len(const), "unwraps": len(unw), "uninterpreted": len(other),
+    return {"name": key, "res": res, "len": vals[0] if vals else None, "asserts": len(const), "unwraps": len(unw), "subslices": len(rng), "uninterpreted": len(other),
             "paths": len(alts), "dt": time.time() - t0}
